@@ -42,6 +42,65 @@ CHECKS = {
         "note": TRUST + " Assumed for the concurrent clauses: crossbeam SkipMap lower_bound / Entry::next are linearizable (least linked key >= start / > the entry's key at some instant of the call) and an unlinked node's slot keeps its last record; the T-sched tie checks this model against the real skip list on every run. Writers' calls are atomic in this model; their internal interleavings are C07's subject.",
         "design": "DESIGN.md section 5 C14",
     },
+    "C02": {
+        "text": "Coq, over the abstract device + two-slot journal protocol (Model/Device.v), for every protocol history, every state and every crash image (any sub-multiset of the un-synced writes, each possibly torn): the device reopens and its contents are those of some quiescent state at or after the last acknowledgement (ack_durable); within a transaction the outcome is all-or-nothing (crash_atomic); new-record batches and retirement of superseded generations are admissible transactions. Tie: the real device history of traced workloads must be accepted by the extracted Coq monitor (journal discipline), crash images rebuilt from the trace are reopened by the real code and by the byte-level recovery model (must agree), and an oracle checks every real reopen against the per-key acknowledgement window. Found and repaired with it: F3 (split retired extent loses an acknowledged key) and F4 (unsynced initial metadata).",
+        "note": TRUST + " The abstract device treats an extent as one cell; scan alignment at block level is checked by execution only. Assumptions A1-A3 (checksum detection, sector atomicity, fsync contract) are hypotheses of the model.",
+        "design": "DESIGN.md sections 4 and 5 C02",
+    },
+    "C03": {
+        "text": "Coq: in every reachable protocol state every crash image reopens (recover never fails), no torn cell is ever seen by the scan, and the contents are exactly those before or after the transaction in flight (crash_atomic); the invariant holds along every history; admissibility of record batches and retirements. Tie as C02, with hostile values containing byte-exact markers and record heads with valid tokens; the oracle additionally requires that every exposed key carries a generation the application stored under that key and that len equals the number of exposed keys.",
+        "note": TRUST + " As C02.",
+        "design": "DESIGN.md sections 4 and 5 C03",
+    },
+    "C04": {
+        "text": "Coq, over the abstract device: from any disk on which recovery selects an active journal, every crash image of the replay's marker writes and of its final journal clear recovers to the same seen cells as the first recovery, the completed repair too (idempotent, restartable at any point, nested), and the repair writes only cells that are markers in the recovered view (touches no live record); post-scan retirement of losers is an admissible transaction, so by crash_atomic a crash inside it changes no key. Tie: second-level crash images cut inside the real recovery's own traced writes must reopen (real code and model) to the contents of the first recovery.",
+        "note": TRUST + " Finding F1 (a retirement call with more than 1024 coalesced extents can resurrect an older generation) is outside what this engine generates; see DESIGN section 8.",
+        "design": "DESIGN.md section 5 C04",
+    },
+    "C05": {
+        "text": "Coq: an ownership ledger over the proven allocator (C06) keeps, along every sequence of acquisitions and give-backs, the exact partition free xor owned-by-exactly-one-extent of the data area; give-backs of owned extents are always accepted (no leak); with nothing owned the manager is exactly the fresh one. Tie: at every quiescent point of real workloads an oracle checks disjointness, complement, usage/record counters and persisted counters on the live store, the byte-level recovery model must rebuild the same state (incl. free-space statistics) from the file, and an emptied device must be a single free run that accepts a fresh device's fill.",
+        "note": TRUST + " The ledger abstracts the write path's reservation states into 'owned'; the link from the write path to the ledger is by the quiescent-point oracle, not proved.",
+        "design": "DESIGN.md section 5 C05",
+    },
+    "C09": {
+        "category": "proof",
+        "text": "PARTIAL proof. Proved in Coq (abstract device): at every protocol state -- hence at the state where a device call fails -- every crash image and the device as it stands recover to the contents before or after the transaction in flight and never to anything older than the last acknowledgement; a failed write-before or fsync changes no crash image; whatever part of a journaled batch reached the device is contained in the journaled extents (so it can be scrubbed, and is wiped by replay). Also proved: the scrub of a failed batch whose intent is durable (journal ACTIVE again in the other slot, markers, clear) is restartable at every point and recovers, from the failure to its end, exactly the cells the batch found. NOT proved: the rest of the failure-handling code (which failures take the scrub path, quarantine/poison, requeue order, error propagation worker -> force_flush -> flush_all, healing). That part is decided by execution: fault injection at every device call (before/after), pairs, persistent and healing failures on the real store with the Coq monitor accepting each faulted history and an oracle for acknowledgement windows, reads during failure, no hang/death, and flush success after healing.",
+        "note": TRUST + " Fault model A4 (fail-stop; failed fsync = writes stay un-synced). io_uring-path faults are not injected.",
+        "design": "DESIGN.md section 5 C09",
+    },
+    "C10": {
+        "text": "Codec theorems in Coq over a byte-level model written from the documented layout: little-endian round trips, CRC-32C chaining and table=bitwise definition (finite check lifted), parse.serialize round trip for v1 and v2/v3 record heads (whole extent and head block), value offset, token range/non-zero/idempotent self-verifying stamp, retirement-marker round trip and marker/record/zero disjointness. Tie on every run: (i) every pure format function vs the Coq codec through hook H3, (ii) whole files after flush() decoded by the model as an independent reader must equal the live contents with clear journal and exact counters, (iii) a golden corpus of v1/v2/v3 files from the pinned release must be decoded by the model to their manifests, be read back by the working tree, and keep their format when written to.",
+        "note": TRUST + " Not proved: the whole-file bridge (decode of an encoded abstract disk) -- it is checked by execution (ii, iii).",
+        "design": "DESIGN.md section 5 C10",
+    },
+    "C07": {
+        "text": "Coq over Model/Sched.v, a step-by-step rendering of the per-key protocol (optimistic read, local computation, re-validation and swap under the entry guard, retirement-timestamp checks, retry loops) for get, insert, delete, compare-and-swap, increment, insert-if-absent and JSON patch: for every number of threads, every program and every schedule the commits in response order form a legal sequential last-writer-wins history ending in the final contents, each thread receives exactly its commits' responses, the only deviations are flagged refusals (OlderTimestamp / no-swap) that change nothing; consequences proved on the witness: no increment is lost, one insert-if-absent wins, an accepted write never lands on an equal or newer timestamp. Ties: (i) the same programs under the same schedule on the real store, threads parked at the H7 scheduling points, must give the model's responses and final contents; (ii) real histories from controlled and free-running threads are judged by the extracted checker lin_check, proved sound in Coq.",
+        "note": TRUST + " Both permitted deviations are proved justified in the model: an OlderTimestamp refusal is preceded by an accepted delete of the same key with an equal or newer timestamp, and a flagged compare-and-swap refusal happens only when the key's modification counter (one unit per accepted, logged insert/replace/delete of the key) moved between the call's read and its response; on real histories the same rule is applied by lin_check. Atomicity of the segments between H7 points and exclusiveness of scc entry guards are assumptions of the model; interleavings inside a segment are exercised only by the free-running histories.",
+        "design": "DESIGN.md section 5 C07",
+    },
+    "C08": {
+        "text": "Coq over Model/Extent.v (the extent pin / retire protocol: acquire_extent CAS, pread, release + identity check; retired bit, reader checks before the marker write and before the release, reuse by another key), for any number of readers and every interleaving: while a reader is pinned the blocks hold the generation's own record and no step changes them (pinned_not_overwritten), every completed read returned exactly that record or StaleExtent, never a marker or another key's bytes, and the retired bit admits no new reader. Tie: on real stores under racing readers, writers, deleters, TTL rewrites and flushes with immediate block reuse, the global trace of pin/unpin events and device writes must be accepted by the extracted monitor (no write into a pinned extent), and an oracle checks every returned value for authenticity and recency.",
+        "note": TRUST + " The model is of one extent and takes the sequential composition acquire -> load sector -> pread -> release from the code; the value_source chain of deferred TTL rewrites is exercised by the runs, not modelled separately. Recency is decided by the run-time oracle, not by a theorem.",
+        "design": "DESIGN.md section 5 C08",
+    },
+    "C19": {
+        "category": "proof",
+        "text": "PARTIAL proof. Proved in Coq over Model/WriteBehind.v for every shard count S, every worker count W >= 1 and every interleaving of writers, coordinator ticks and worker passes: each shard is owned by exactly one worker (its residue class, as flush_worker_shards strides); at every tick the coordinator wakes the owner of every non-empty shard and worker 0 whenever retirements are pending; a worker's pass empties all its shards; hence an entry queued in any shard is gone once its owner has run, whatever else happens -- nothing can be overlooked indefinitely. Not provable in this model: that a woken worker is scheduled and its I/O returns within the stated time. Tie: real stores built with 1..8 shards (CPU visibility 1..16), workloads that never flush, killed 3-3.5 s after the last call: the image made of fsync-covered writes only must contain every accepted write and, when idle, no un-retired superseded generation.",
+        "note": TRUST + " The time bound itself (flush interval + I/O) is measured, not proved; the theorem is the liveness skeleton: ownership partition + coordinator coverage + pass completeness.",
+        "design": "DESIGN.md section 5 C19",
+    },
+    "C20": {
+        "category": "proof",
+        "text": "PARTIAL. Proved in Coq over Model/InFlight.v (io.rs InFlightBuffers): for every order of pushes, submissions, submission failures, completions and the final drop, a buffer the kernel may still read from is never freed, and only buffers marked in flight are kept alive; tied to the code by driving the real type with drop-tracking tokens (hook H8). The rest of the property -- use-after-free, double free, out-of-bounds access anywhere in the crate's unsafe code, under races with expiry, eviction, flushes, failed writes and shutdown -- cannot be expressed by an executable Gallina model of compiled Rust; it is exercised by re-running the concurrency (C07), race (C08), sequence (C01), fault (C09) and damaged-file (C17) engines under AddressSanitizer, with a self-test showing the instrumentation is live. A sanitizer report is a concrete violation; the absence of one is evidence for the executions explored, not a proof.",
+        "note": TRUST + " Memory safety of the epoch-managed ordered index (TreeSlot), AlignedBuffer and the scc/crossbeam dependencies is NOT proved; AddressSanitizer does not instrument the prebuilt standard library. Miri was not used (io_uring and threads with real files are outside what it supports).",
+        "design": "DESIGN.md section 5 C20",
+    },
+    "C18": {
+        "category": "proof",
+        "text": "PARTIAL. Proved in Coq: the 'acquired while held' relation of the store's locks (retirement flush/pending mutexes, metadata, device, free-space RwLocks, shard buffers, cache eviction, thread handles), regenerated from the source text on every run, respects a rank; and for any relation that respects a rank no set of threads acquiring locks along it can be stuck on each other (no lock-order deadlock). A change that nests two of these locks the other way round breaks the obligation. Not provable with this technique: real termination (scheduler, channels, condition variables, bounded retry loops against a live device, the sweeper's stop). That part is decided by execution under watchdogs: contention scenarios (concurrent flushers, full device, failing device, sweeper, shutdown with work pending) and the C07 controller parking threads inside every optimistic window.",
+        "note": TRUST + " The lock relation comes from a syntactic analysis (tools/gen_locks.py); scc/crossbeam internals are outside it. Absence of a hang in the explored runs is evidence, not proof.",
+        "design": "DESIGN.md section 5 C18",
+    },
     "C15": {
         "text": "Coq: the read-only recovery used for the migration source writes nothing for any image and outcome (source untouched); a successful migration spec means no destination existed, the source is v1/v2 with a successful read-only recovery, and the destination record list is exactly the recovered keys with identical timestamps and absolute expiries (TTL filtering off, so expired newest generations are copied and no older value can reappear). Tie: the real migrate() on engine-built and damaged legacy images vs migrate_spec of the source image (outcome, report, destination contents read back by the real store), with an oracle for non-destructiveness (source hash, no publication or temporary on failure, existing destination untouched, v3 result).",
         "note": TRUST + " Filesystem operations (hard_link publication, rollback, directory sync) are observed, not modelled; record-by-record verification inside migrate() is covered only through its outcome.",
